@@ -789,3 +789,114 @@ class _MultiScoreboard:
             if m:
                 return "channel %s: %s" % (c["name"], m)
         return None
+
+
+# ---------------------------------------------------------------------------------------------------------------
+# ClockDomainCrossing(with_common_rst=True)
+
+class _RstWrap(Module):
+    """Gives the two user domains a reset signal (driven by the harness) and holds the crossing."""
+    def __init__(self, layout, depth, buffered, cd_from, cd_to):
+        from litex.soc.interconnect import stream
+        self.clock_domains.cd_a = ClockDomain(cd_from)
+        self.clock_domains.cd_b = ClockDomain(cd_to)
+        self.submodules.cdc = stream.ClockDomainCrossing(layout, cd_from=cd_from, cd_to=cd_to, depth=depth,
+                                                         buffered=buffered, with_common_rst=True)
+        self.sink, self.source = self.cdc.sink, self.cdc.source
+        self.rst_a, self.rst_b = self.cd_a.rst, self.cd_b.rst
+
+
+class AFifoRstInst(AFifoInst):
+    """letter : (tw, tr, mw, mr, sink.valid, sink.tok, source.ready, rst_from, rst_to); the model sees
+       rst = rst_from | rst_to.  `long_resets`: the generator only produces reset pulses that are long enough
+       to flush the (reset-less) synchroniser flops; only then is the scoreboard armed."""
+    FMT = AFifoInst.FMT + ", rst(cd_from), rst(cd_to)"
+
+    def __init__(self, name, layout, k, buffered=False, cd_from="usb", cd_to="eth", long_resets=True):
+        w = _RstWrap(layout, 1 << k, buffered, cd_from, cd_to)
+        AFifoInst.__init__(self, name, w, k, buffered=buffered, cd_w=cd_from, cd_r=cd_to)
+        self.lean_open = ("afifo_rst_buffered %d" if buffered else "afifo_rst %d") % k
+        # the private domains created by the crossing (names carry a duid): found by what they clock
+        impl_w = self.netlist.mr[id(self.sp_w)][1]
+        impl_r = self.netlist.mr[id(self.sp_r)][1]
+        self.int_w, self.int_r = impl_w.odomain, impl_r.odomain
+        self.long_resets = long_resets
+        self._rst_plan = []
+
+    def _cds(self, tw, tr):
+        cds = []
+        if tw:
+            cds += [self.cd_w, self.int_w]
+        if tr:
+            cds += [self.cd_r, self.int_r]
+        return tuple(cds)
+
+    def clocks(self, letter):
+        tw, tr, mw, mr = letter[:4]
+        return Tick((self._cds(tw, tr), {id(self.sp_w): mw, id(self.sp_r): mr}))
+
+    def apply(self, letter):
+        self.netlist.set(self.module.rst_a, letter[7])
+        self.netlist.set(self.module.rst_b, letter[8])
+        AFifoInst.apply(self, letter)
+
+    def model_letter(self, letter):
+        return list(letter[:7]) + [1 if (letter[7] or letter[8]) else 0]
+
+    def nontrivial(self, letter, outs):
+        return AFifoInst.nontrivial(self, letter, outs) or bool(letter[7] or letter[8])
+
+    def gen(self, rng, t):
+        if t == 0:
+            self._rst_plan = []
+            self._in_rst = None
+        base = AFifoInst.gen(self, rng, t)
+        tw, tr = base[0], base[1]
+        ra = rb = 0
+        if self._in_rst is not None:
+            st = self._in_rst
+            ra, rb = st["who"]
+            # progress of the flush: phase 0 needs one edge of each clock, phase 1 two more of each
+            if st["phase"] == 0:
+                st["w"] |= tw
+                st["r"] |= tr
+                if st["w"] and st["r"]:
+                    st["phase"], st["w"], st["r"] = 1, 0, 0
+            else:
+                st["w"] += tw
+                st["r"] += tr
+            st["n"] += 1
+            done = (st["phase"] == 1 and st["w"] >= 2 and st["r"] >= 2) if self.long_resets else st["n"] >= st["len"]
+            if done:
+                self._in_rst = None
+        elif rng.random() < 0.01:
+            who = rng.choice(((1, 0), (0, 1), (1, 1)))
+            self._in_rst = dict(who=who, phase=0, w=0, r=0, n=0, len=rng.randint(1, 4))
+            ra, rb = who
+            st = self._in_rst
+            st["w"] |= tw
+            st["r"] |= tr
+            st["n"] = 1
+            if st["w"] and st["r"]:
+                st["phase"], st["w"], st["r"] = 1, 0, 0
+            if not self.long_resets and st["n"] >= st["len"]:
+                self._in_rst = None
+        return tuple(base) + (ra, rb)
+
+    def monitor(self):
+        return _RstScoreboard(self.depth + (1 if self.buffered else 0)) if self.long_resets else _NoMonitor()
+
+
+class _NoMonitor:
+    def observe(self, letter, outs):
+        return None
+
+
+class _RstScoreboard(CrossScoreboard):
+    """Scoreboard for the common-reset variant: a reset (long enough to flush, guaranteed by the generator)
+    discards everything in flight; outside resets the usual exactly-once/in-order rule applies."""
+    def observe(self, letter, outs):
+        if letter[7] or letter[8]:
+            self.q = []
+            return None
+        return CrossScoreboard.observe(self, letter[:7], outs)
